@@ -266,6 +266,14 @@ def Near (x y e : Rat) : Prop := -e ≤ x - y ∧ x - y ≤ e
 
 instance (x y e : Rat) : Decidable (Near x y e) := inferInstanceAs (Decidable (_ ∧ _))
 
+theorem near_trans (a b c e1 e2 : Rat) (h1 : Near a b e1) (h2 : Near b c e2) : Near a c (e1 + e2) := by
+  unfold Near at *
+  constructor <;> grind
+
+theorem near_mono (a b e1 e2 : Rat) (h1 : Near a b e1) (h : e1 ≤ e2) : Near a b e2 := by
+  unfold Near at *
+  constructor <;> grind
+
 theorem neg_fin (b : Nat) (hb : FinP b) : FinP (neg b) ∧ ival (neg b) = -ival b := by
   obtain ⟨h1, h2⟩ := hb
   unfold neg isNeg signBit
